@@ -14,10 +14,12 @@ DRIVER_DIR = os.path.join(VERIF, "driver")
 DRIVER_BIN = os.path.join(DRIVER_DIR, "target", "debug", "vpfacts")
 
 CONFIGS = {
-    # name -> extra cargo arguments; 'default' is what the pinned test suite builds
+    # name -> extra cargo arguments; 'default' is what the pinned test suite builds.
+    # The pinned repository does not compile with --no-default-features (cloud.rs uses nat-only methods of
+    # PortForwarding) nor with --all-features (installer.rs includes a man page that is only produced by the
+    # release pipeline), so the second configuration is the smallest one that builds: nat only.
     "default": [],
-    "nofeat": ["--no-default-features"],
-    "allfeat": ["--all-features"],
+    "minimal": ["--no-default-features", "--features", "nat"],
 }
 
 
